@@ -292,3 +292,44 @@ def reader_inverse_lemma(prop):
         add('owner_reads_back_data', ax, deser(D_(data_f, uk)) == da)
         add('owner_reads_back_chunks', ax, deser(D_(chunks_f, K(sk, Hf(data_f), kp))) == ch)
     return Lemma(f'{prop}.lemma.reader_inverse', build, prop=prop)
+
+
+# ------------------------------------------------------------------ _compile_or_none
+def compile_setup(b):
+    shared.repo_self(b)
+    b.sym('pattern', Opt(STR))
+
+    def compile_(interp, st, args, kwargs):
+        st.emit('re_compile', args=list(args), kwargs=dict(kwargs))
+        pat = ops.unwrap_opt(interp, st, args[0], 'pattern') if isinstance(args[0], SV) and isinstance(args[0].ty, Opt) else args[0]
+        yield st, SV(REGEX, UF('re_compile', STR, REGEX)(sym.lift(pat, STR).z))
+
+    re_ = Obj('re', compile=Model('re.compile', compile_))
+    re_._lenient = True
+    b.bind('re', re_)
+
+
+def compile_post(prop):
+    def post(res):
+        pat = res.builder.st.lookup('pattern')
+        for p in res.paths:
+            ev = p.events('re_compile')
+            if p.kind != 'return':
+                res.oblige(p, f'{prop}.compile.total', z3.BoolVal(False))
+                continue
+            # the filter is the caller's regular expression as written: compiled once, with no flags that change what
+            # it matches (case, multi-line, ...); None stays None (no filter)
+            if ev:
+                e = ev[0]
+                flags = e.data['args'][1] if len(e.data['args']) > 1 else e.data['kwargs'].get('flags', 0)
+                res.oblige(p, f'{prop}.compile.pattern_as_given_without_flags', z3.And(
+                    z3.BoolVal(len(ev) == 1 and isinstance(flags, int) and flags == 0 and len(e.data['args']) <= 2),
+                    z3.Not(pat.ty.is_none(pat.z)), z3.BoolVal(e.data['args'][0] is pat),
+                    z3.BoolVal(isinstance(p.value, SV) and p.value.ty == REGEX)))
+            else:
+                res.oblige(p, f'{prop}.compile.none_means_no_filter', z3.And(pat.ty.is_none(pat.z), z3.BoolVal(p.value is None)))
+    return post
+
+
+def compile_unit(prop):
+    return Unit(f'{prop}.compile_or_none', REPO_PY, 'Repository._compile_or_none', compile_setup, compile_post(prop), prop=prop)
